@@ -38,7 +38,7 @@ CONSTANTS MaxMsgs,        \* streams of 0..MaxMsgs messages
                                          \* lengths, so that every value of the low length octet occurs), SweepChunk per stream;
                                          \* SweepHi < SweepLo: no sweep
 
-FaultKinds == {"stop", "undef_elem", "undef_elem2", "undef_seq", "shrink1", "grow1", "shrink3", "grow3", "shrink4", "grow4"}
+FaultKinds == {"stop", "stopff", "undef_elem", "undef_elem2", "undef_seq", "shrink1", "grow1", "shrink3", "grow3", "shrink4", "grow4"}
 
 (* ---- the pool ---------------------------------------------------------------- *)
 Txt(s) == [i \in 1..Len(s) |-> CASE s[i] = "B" -> 66 [] s[i] = "U" -> 85 [] s[i] = "F" -> 70 [] s[i] = "R" -> 82
@@ -76,6 +76,7 @@ Damage(m, f) ==
     LET h == ParseHeader(m) IN
     CASE f = "none" -> m
       [] f = "stop" -> Patch(m, Len(m) - 1, <<56>>)                            \* 7778
+      [] f = "stopff" -> Patch(m, Len(m) - 4, <<255, 255, 255, 255>>)          \* four octets that are no text in any encoding
       [] f = "undef_elem" -> Patch(m, h.s3 + 7, <<63, 250>>)                   \* 0 63 250
       [] f = "undef_elem2" -> Patch(m, h.s3 + 9, <<63, 250>>)                  \* the second descriptor (pool message 5 only)
       [] f = "undef_seq" -> Patch(m, h.s3 + 7, <<192 + 63, 250>>)              \* 3 63 250
@@ -143,10 +144,12 @@ DeclaredTotal(s, c) == U3(s, c + 4)
 
 (* what full decoding can see of a fault: with ive a damaged stop signature passes (its four octets are read,
    not compared) - every other fault is found as before *)
-Visible(f) == f # "none" /\ ~(mode.ive /\ f = "stop")
+Visible(f) == f # "none" /\ ~(mode.ive /\ f \in {"stop", "stopff"})
 FullOK(c) == LET i == SegAt(c) IN i # 0 /\ ~Visible(layout[i].fault)
 Edition(c) == S[c + 8]
-FilterTrue(c) == Edition(c) = 4                     \* the filter expression used: ${%edition} == 4
+(* the filter expressions used: ${%edition} == 4, or ${%data_i18n_subcategory} == 0 - a parameter that only
+   edition 4 has (0 in every pool message), so the answer for the other editions is "no such parameter" *)
+FilterTrue(c) == Edition(c) = 4
 
 FindFrom(c) == IF \E i \in c..(Len(S) - 4) : SubSeq(S, i + 1, i + 4) = BUFR
                THEN CHOOSE i \in c..(Len(S) - 4) : SubSeq(S, i + 1, i + 4) = BUFR /\ \A j \in c..(i - 1) : SubSeq(S, j + 1, j + 4) # BUFR
@@ -165,7 +168,7 @@ Uniform(l) == \A i, j \in 1..Len(l) : (l[i].kind = "sep" /\ l[j].kind = "sep") =
 (* a message whose payload contains start signatures is not combined with damage that makes the
    metadata-only scanner re-scan its interior (what it would find there is not a message) *)
 Sane(l) == \A i \in 1..Len(l) :
-    /\ (l[i].kind = "msg" /\ l[i].k = 2) => l[i].fault \in {"none", "stop", "undef_elem", "undef_seq"}
+    /\ (l[i].kind = "msg" /\ l[i].k = 2) => l[i].fault \in {"none", "stop", "stopff", "undef_elem", "undef_seq"}
     /\ (l[i].kind = "msg" /\ l[i].fault = "undef_elem2") => l[i].k = 5
 
 RECURSIVE SweepFrom(_, _)
@@ -254,7 +257,7 @@ YieldOf(i) == [at |-> StartOf(layout, i), len |-> Len(SegOctets(layout[i]))]
 NoFaults == \A i \in MsgSegs : layout[i].fault = "none"
 (* with ive the stop signature is the only thing that is waived *)
 IveWaivesOnlyStop == (mode.ive /\ status = "done" /\ ~mode.info) =>
-    \A i \in MsgSegs : (layout[i].fault \notin {"none", "stop"}) => \A j \in 1..Len(yielded) : yielded[j].at # StartOf(layout, i)
+    \A i \in MsgSegs : (layout[i].fault \notin {"none", "stop", "stopff"}) => \A j \in 1..Len(yielded) : yielded[j].at # StartOf(layout, i)
 (* C11: without damage the stream yields exactly its (matching) messages with their exact bytes *)
 YieldsExactlyMessages ==
     (status = "done" /\ NoFaults) =>
